@@ -98,6 +98,7 @@ R.contract("Node.send_message", params={"self": "Node", "conn": "PeerConnection"
                     ("queued-once", "items(out(conn)) == old(items(out(conn))) + [message]"),
                     ("answer-releases-pending-hbh",
                      "implies(not is_req(message), not pwa_has(self, conn.host_identity, message.header.hop_by_hop_identifier))"),
+                    ("answer-releases-the-origin-record", "implies(not is_req(message), not (mkey(message) in self._origin_waiting_answer))"),
                     ("request-keeps-window", "implies(is_req(message), (o in self._sent_answers) == old(o in self._sent_answers) "
                                              "and window(self, o) == old(window(self, o)))"),
                     ("answered-id-enters-window",
@@ -170,7 +171,9 @@ _ANS_MODS = ["dict:self._sent_answers", "dict:self._origin_waiting_answer",
              "deque:self._sent_answers[self._origin_waiting_answer[mkey(message)][0]] "
              "if mkey(message) in self._origin_waiting_answer",
              "dict:self._peer_waiting_answer[conn.host_identity] if conn.host_identity in self._peer_waiting_answer"]
-_WIN_ENS = [("windows-stay-well-formed", "win_ok(self, o)"), ("answered-id-enters-window",
+_WIN_ENS = [("windows-stay-well-formed", "win_ok(self, o)"),
+            ("origin-record-released", "not (mkey(message) in self._origin_waiting_answer)"),
+            ("answered-id-enters-window",
              "implies(old(mkey(message) in self._origin_waiting_answer) and "
              "old(self._origin_waiting_answer[mkey(message)][0]) == o, "
              "o in self._sent_answers and window(self, o) == "
@@ -259,6 +262,8 @@ R.contract("Node._receive_app_request", params={"self": "Node", "conn": "PeerCon
                      "delivered_to(self, items(self.g_dlv_app)[old(len(self.g_dlv_app))], message) and nothing_sent(conn) and "
                      "app_matched_before(self, conn, message, items(self.g_dlv_app)[old(len(self.g_dlv_app))]))"),
                     ("answered-or-delivered", "no_delivery(self) == (len(out(conn)) == old(len(out(conn))) + 1)"),
+                    ("node-answer-releases-the-origin-record", "implies(len(out(conn)) == old(len(out(conn))) + 1, "
+                                                               "not (mkey(message) in self._origin_waiting_answer))"),
                     ("windows-stay-well-formed", "win_ok(self, o)")],
            raises=[Raise("Exception", "True", "may")],
            ensures_exc={"Exception": [("failing-sends-nothing", "nothing_sent(conn)"), ("failing-keeps-windows", "sa_untouched(self)")]},
